@@ -2,6 +2,7 @@
 import Hb.Driver.MapOps
 import Hb.Driver.TableOps
 import Hb.Driver.SetOps
+import Hb.Driver.ParOps
 import Hb.Driver.SerdeOps
 namespace Hb.Driver
 open Hb
@@ -11,6 +12,7 @@ def execOp (st : DState) (env : Env) (name : String) (args : List String) (other
   match st.coll with
   | "table" => execTableOp st env name args other w
   | "set" => execSetOp st env name args other w
+  | "par" => execParOp st env name args other w
   | "serde" => execSerdeOp st env name args other w
   | _ => execMapOp st env name args other w
 
